@@ -24,6 +24,7 @@ instance : Rel UInt8 := ⟨fun _ v => toString v.toNat⟩
 instance : Rel UInt16 := ⟨fun _ v => toString v.toNat⟩
 instance : Rel Int := ⟨fun _ v => toString v⟩
 instance : Rel Unit := ⟨fun _ _ => "u"⟩
+instance : Rel Bool := ⟨fun _ v => if v then "true" else "false"⟩
 instance {α : Type} [Rel α] : Rel (Located α) :=
   ⟨fun b v => s!"{Rel.rel b v.val}@{(v.start : Int) - b}-{(v.stop : Int) - b}"⟩
 instance {α β : Type} [Rel α] [Rel β] : Rel (α × β) := ⟨fun b v => s!"({Rel.rel b v.1},{Rel.rel b v.2})"⟩
@@ -49,6 +50,15 @@ instance : Rel Obj := ⟨fun _ o => objSexp o⟩
     leading whitespace) - it makes the restores done by the combinators themselves observable -/
 def objP : P Obj := fun s i => (parseObj ⟨0, 3⟩ s i).1
 
+/-- `BinaryMatcher` over `ParseBuffer::exact` -/
+def matchP (tag : Bytes) : P Bool := fun s i =>
+  match exact tag s i with
+  | (true, j) => (.ok ⟨true, i, j⟩, j)
+  | (false, _) => (.err .guard, i)
+
+def mAB : P Bool := matchP [65, 66]
+def mBA : P Bool := matchP [66, 65]
+
 /-- the composites of `prim_combinators.rs::test_combined` / `test_not` (generic model Model/CombP.lean),
     two mixed ones over binary and token parsers, and two look-ahead ones (`lk…`) -/
 def runCmb (name : String) (s : Bytes) (i : Nat) : Option Out :=
@@ -73,20 +83,69 @@ def runCmb (name : String) (s : Bytes) (i : Nat) : Option Out :=
   | "starObj" => some (convRel (starP objP s i))
   | "lkNotNotB" => some (convRel (notP (notP cB) s i))
   | "lkAltSeqANotBA" => some (convRel (altP (seqP cA (notP cB)) cA s i))
+  -- composites over the tag matcher and the keyword parsers (all built on `ParseBuffer::exact`)
+  | "altMabMba" => some (convRel (altP mAB mBA s i))
+  | "seqMabMba" => some (convRel (seqP mAB mBA s i))
+  | "notMab" => some (convRel (notP mAB s i))
+  | "starMab" => some (convRel (starP mAB s i))
+  | "altBoolNull" => some (convRel (altP boolean null s i))
+  | "seqBoolNull" => some (convRel (seqP boolean null s i))
+  | "notBool" => some (convRel (notP boolean s i))
+  | "starAltBoolNull" => some (convRel (starP (altP boolean null) s i))
   | _ => none
 
 def endian (s : String) : Bin.Endian := if s.endsWith "le" then .little else .big
 
+/-! ### frames: where the implementation runs the parser
+
+  `<parser>`: on `ParseBuffer::new(buf)`.  `@<parser>`: on a restricted view whose window is exactly `buf`, inside a
+  larger allocation with fixed surroundings.  `v<a>-<b>[,<a2>-<b2>…]@<parser>`: CUT WINDOW - `buf` is the whole
+  underlying storage, the parser runs on `RestrictView(a, b-a)` of it (then on `RestrictView(a2, b2-a2)` of that
+  view, …) and `pos` is relative to the innermost window.  The specification sees the bytes of the innermost
+  window only (a view is a buffer: C17): model and oracle are applied to `window`. -/
+
+/-- `(frame, bare parser name)`; frame `none` = whole buffer -/
+def splitFrame (p0 : String) : Option String × String :=
+  match p0.splitOn "@" with
+  | [f, p] => (some f, p)
+  | _ => (none, p0)
+
+def bare (p0 : String) : String := (splitFrame p0).2
+
+/-- the windows `(start, end)` of a frame, outermost first -/
+def parseWins (f : String) : Option (List (Nat × Nat)) :=
+  if f.isEmpty then some []
+  else if f.startsWith "v" then
+    ((f.drop 1).toString.splitOn ",").mapM fun w =>
+      match w.splitOn "-" with
+      | [a, b] => match a.toNat?, b.toNat? with
+        | some a, some b => some (a, b)
+        | _, _ => none
+      | _ => none
+  else none
+
+/-- the bytes of the innermost window -/
+def window (s : Bytes) : List (Nat × Nat) → Option Bytes
+  | [] => some s
+  | (a, b) :: ws => if a ≤ b && b ≤ s.length then window ((s.drop a).take (b - a)) ws else none
+
+/-- the buffer the specification sees in a case -/
+def caseBuf (p0 : String) (s : Bytes) : Option Bytes :=
+  match (splitFrame p0).1 with
+  | none => some s
+  | some f => (parseWins f).bind (window s)
+
 /-- is this parser one of the token-level ones (failure must not move the cursor)? -/
-def tokenLevel (p : String) : Bool := !(p.startsWith "obj:" || p.startsWith "@obj:")
+def tokenLevel (p0 : String) : Bool := !((bare p0).startsWith "obj:")
 
 /-- does the re-parse clause apply?  Scanners return a skip count whose span is the skipped
     text (not a spelling of the value), so the clause is not applicable to them.  Neither is it to the
     two look-ahead composites `cmb:lk…` (positive look-ahead `Not(Not('B'))`, ordered choice whose first
     branch looks ahead): for these the clause is FALSE by the semantics of PEG look-ahead, see
     `Parsley.C15.reparse_fails_for_positive_lookahead`, `alt_reparse_needs_failTrunc`; all other clauses apply. -/
-def reparseApplies (p : String) : Bool :=
-  !(p.startsWith "scan:" || p.startsWith "@scan:" || p.startsWith "cmb:lk" || p.startsWith "@cmb:lk")
+def reparseApplies (p0 : String) : Bool :=
+  let p := bare p0
+  !(p.startsWith "scan:" || p.startsWith "cmb:lk")
 
 /-- `BinaryScanner` over `ParseBuffer::scan` (empty tag: `windows(0)` panics) -/
 def scanP (tag : Bytes) : P Nat := fun s i =>
@@ -99,15 +158,10 @@ def scanP (tag : Bytes) : P Nat := fun s i =>
     | some k => (.ok ⟨k, i, i + k⟩, i + k)
     | none => (.err .eob, i)
 
-def matchP (tag : Bytes) : P Bool := fun s i =>
-  match exact tag s i with
-  | (true, j) => (.ok ⟨true, i, j⟩, j)
-  | (false, _) => (.err .guard, i)
-
 def runParser (p0 : String) (s : Bytes) (i : Nat) : Option Out :=
   let u := fun (_ : Unit) => "unit"
-  -- '@' prefix: the implementation runs on a restricted view; by C17 the model is the same
-  let p := if p0.startsWith "@" then (p0.drop 1).toString else p0
+  -- frame prefix: the implementation runs on a restricted view; by C17 the model is the same
+  let p := bare p0
   match p.splitOn ":" with
   | ["wsn0"] => some (conv u (wsNoEOL false s i))
   | ["wsn1"] => some (conv u (wsNoEOL true s i))
@@ -159,7 +213,7 @@ def showOut (p : String) : Out → String
 def model (line : String) : String :=
   match words line with
   | [p, hex, pos] =>
-    match bytesOfHex hex, pos.toNat? with
+    match (bytesOfHex hex).bind (caseBuf p), pos.toNat? with
     | some s, some i =>
       if i > s.length then "bad-case" else
       match runParser p s i with
@@ -177,7 +231,7 @@ def model (line : String) : String :=
 
 /-- shift the `start` field of a stream-content value (location metadata inside the value) -/
 def normVal (p : String) (start : Nat) (val : List String) : List String :=
-  if p.startsWith "sc:" || p.startsWith "@sc:" then
+  if (bare p).startsWith "sc:" then
     match val with
     | st :: rest => toString (st.toNat! - start) :: rest
     | [] => []
@@ -208,7 +262,7 @@ def codeDecode : Nat → Bytes → Option Bytes
 /-- the value clause for names and operators: the reported value is the decoding of the reported span
     (`/` excluded for names).  `none` = clause not applicable to this parser. -/
 def valueOfSpan (p : String) (s : Bytes) (st en : Nat) (val : List String) : Option Bool :=
-  let p := if p.startsWith "@" then (p.drop 1).toString else p
+  let p := bare p
   let text := (s.drop st).take (en - st)
   let body : Option Bytes :=
     if p == "op" then some text
@@ -220,11 +274,12 @@ def valueOfSpan (p : String) (s : Bytes) (st en : Nat) (val : List String) : Opt
     | some b => some ((codeDecode (b.length + 1) b).map hexOfBytes == some (String.join val) && (p == "name" || !b.isEmpty))
   else none
 
-/-- The oracle: the clauses of C15 applied to the implementation's output. -/
+/-- The oracle: the clauses of C15 applied to the implementation's output.  For a cut window the buffer is
+    the window (`end ≤ size` means: inside the window; the span is text of the window). -/
 def judge (case impl : String) : String :=
   match words case with
   | [p, hex, pos] =>
-    match bytesOfHex hex, pos.toNat? with
+    match (bytesOfHex hex).bind (caseBuf p), pos.toNat? with
     | some s, some i =>
       let parts := impl.splitOn " | re "
       match parts with
@@ -421,10 +476,21 @@ def seqsOver (ps : List Bytes) : Nat → List Bytes
 
 def plainRun (k : Nat) : Bytes := ([98, 120, 100, 121, 102, 122, 99, 119, 101, 118] : Bytes).take k
 
+/-- every code `#hh` (all 256 values; hex digits in lower and upper case): alone, after a plain byte, before a plain byte -
+    a sweep over the VALUE of the code (a decoder that special-cases a digit, e.g. tests the high or low nibble for zero
+    instead of the whole byte, is only visible on codes such as #0A, #20, #A0) -/
+def allCodes : List Bytes :=
+  let hexLo : Nat → UInt8 := fun d => if d < 10 then (48 + d).toUInt8 else (87 + d).toUInt8
+  let hexUp : Nat → UInt8 := fun d => if d < 10 then (48 + d).toUInt8 else (55 + d).toUInt8
+  (List.range 256).flatMap fun n =>
+    let c : Bytes := [35, hexLo (n / 16), hexLo (n % 16)]
+    let C : Bytes := [35, hexUp (n / 16), hexUp (n % 16)]
+    [c, [97] ++ c, c ++ [98], C]
+
 def codeTokens (full : Bool) : List Bytes :=
   let codes : List Bytes := [[35, 52, 49], [35, 52, 97], [35, 48, 48], [35, 101, 57], [35, 55, 69]]
   let lens := if full then [1, 2, 3, 4] else [1, 2, 3]
-  lens.flatMap (seqsOver hexPieces) ++
+  allCodes ++ lens.flatMap (seqsOver hexPieces) ++
   (codes.flatMap fun c => (List.range 6).flatMap fun i => (List.range 6).map fun j => plainRun i ++ c ++ plainRun j) ++
   (([[35, 52, 49], [35, 67, 51], [35, 97, 57]] : List Bytes).flatMap fun c1 =>
     ([[35, 52, 49], [35, 97, 57], [35, 48, 48]] : List Bytes).flatMap fun c2 =>
@@ -450,8 +516,107 @@ def emitCode (emit : String → IO Unit) (full : Bool) (k : Nat) (tok : Bytes) :
       if 1 ≤ s.length then emit s!"op {hexOfBytes s} 1"
       if 2 ≤ s.length then emit s!"op {hexOfBytes s} 2"
 
+/-! ### cut windows
+
+  A restricted view shares the storage of its parent: the bytes behind the view's end are still there, and a
+  primitive that bounds itself by the storage instead of the view reads them.  The plain `@` frame cannot see
+  that (its surroundings never complete a token).  The family: a storage `S` on which something parses at the
+  cursor `c`, and EVERY window `[a, b)` of it with `a ∈ {0, c}` and `c ≤ b ≤ |S|` - so for a token with span
+  `[c, e)` the view ends before it (`b = c`: empty rest), inside it at every byte (`c < b < e`: the completing
+  bytes lie just behind the view), exactly at its end (`b = e`), inside and after its look-ahead / EOL /
+  closing keyword (`b > e`); the same windows again as views of a wider view (nested).  Expected = the
+  specification on the window's bytes alone. -/
+
+/-- composites over the keyword parsers (for PDF token storages) -/
+def kwCmbParsers : List String :=
+  ["cmb:altBoolNull", "cmb:seqBoolNull", "cmb:notBool", "cmb:starAltBoolNull"]
+
+/-- composites over the tag matcher (for storages over `cmbAlphabet`) -/
+def tagCmbParsers : List String :=
+  ["match:4142", "match:41", "cmb:altMabMba", "cmb:seqMabMba", "cmb:notMab", "cmb:starMab"]
+
+/-- tag matchers for the keywords / delimiters of pdf_obj.rs and pdf_prim.rs -/
+def kwMatchers : List String :=
+  ["match:74727565", "match:6e756c6c", "match:3c3c", "match:3e3e", "match:656e6473747265616d", "match:52"]
+
+def cutParsers : List String := parsers ++ kwCmbParsers ++ kwMatchers ++ ["scan:52", "scan:656e64", "bv:3", "u16le", "i32be"]
+
+/-- all windows `[a, b)`, `a ∈ {0, c}`, `c ≤ b ≤ |S|`, of the storage `S` around the cursor `c` (absolute);
+    `nested`: also as a view of a view (outer window one byte wider on each side where there is one) -/
+def emitCuts (emit : String → IO Unit) (S : Bytes) (c : Nat) (ps : List String) (nested : Bool) : IO Unit := do
+  let hx := hexOfBytes S
+  for a in [0, c].eraseDups do
+    for b in List.range' c (S.length + 1 - c) do
+      let a0 := a - 1
+      let b0 := min S.length (b + 1)
+      for p in ps do
+        emit s!"v{a}-{b}@{p} {hx} {c - a}"
+        if nested then emit s!"v{a0}-{b0},{a - a0}-{b - a0}@{p} {hx} {c - a}"
+
+/-- every window `[a, b)` with `a ≤ c ≤ b` of `S`, for every cursor; `proper`: only windows that end before
+    the end of the storage -/
+def emitAllWindows (emit : String → IO Unit) (S : Bytes) (ps : List String) (proper : Bool) : IO Unit := do
+  let hx := hexOfBytes S
+  let top := if proper then S.length else S.length + 1
+  for b in List.range top do
+    for c in List.range (b + 1) do
+      for a in List.range (c + 1) do
+        if !(a == 0 && b == S.length) then
+          for p in ps do
+            emit s!"v{a}-{b}@{p} {hx} {c - a}"
+
+/-- storages for the cut windows: the token list plus tokens whose END is interesting - the look-ahead after
+    an integer (` 0 R`), the EOL of a comment, the `endstream` keyword after stream data, closing delimiters -/
+def cutTokens : List String :=
+  tokens ++
+  ["12 0 R", "1 0 R ", "1 23 R/", "1 0 obj", "[1 0 R]", "[true false null]", "[ true ]", "<</K true>>", "<</K/V>>",
+   "<<>>", "[[]]", "[null]", "%c\r\n", "%comment\nx", "%\r", "stream\nendstream", "stream\r\nx\r\nendstream",
+   "stream\nab\nendstream", "stream\nabendstream", "stream\r\nab\rendstream ", "(a\\)b)", "(a(b)c)", "<4a4b>",
+   "-12.50", "12.5.", "+7", "/Name", "/A#42C", "BT", "T*", "trueR", "nullx", "falsetrue", "truenull", "%%%%", "RR",
+   "  \r\n", " \r", "\x00\x01\x02\x03", "\x80\xff\x00\x01\x02\x03\x04\x05"]
+
+def cutLeads : List Bytes := [[], [32], [91], [37, 10], [49, 32]]
+def cutFollowers : List Bytes := [[], [32], [93], [10], [116, 114], [82]]
+
+def emitCutToken (emit : String → IO Unit) (full : Bool) (k : Nat) (tok : Bytes) : IO Unit := do
+  let leads := if full then cutLeads else [cutLeads[k % cutLeads.length]?.getD []]
+  let fols := ((if full then [0, 2, 4] else [0]).map fun d => cutFollowers[(k / 2 + d) % cutFollowers.length]?.getD []).eraseDups
+  for lead in leads do
+    for fol in fols do
+      emitCuts emit (lead ++ tok ++ fol) lead.length cutParsers true
+
+/-- a window chosen with the model's help (generator side only): if the parser succeeds on the storage with
+    span `[s, e)`, the view ends inside the span, at its end or one byte after; otherwise anywhere after the cursor -/
+def rndCut (p : String) (S : Bytes) (c : Nat) (r : Rng) : (Nat × Nat) × Rng :=
+  let (a, r) := r.nat (c + 1)
+  match runParser p S c with
+  | some (.ok v, _) =>
+    let hi := min S.length (v.stop + 1)
+    let lo := min hi (max c v.start + 1)
+    let (d, r) := r.nat (hi - lo + 1)
+    ((a, lo + d), r)
+  | _ =>
+    let (d, r) := r.nat (S.length - c + 1)
+    ((a, c + d), r)
+
 def gen (seed n : Nat) (tier : String) (emit : String → IO Unit) : IO Unit := do
   let full := tier == "thorough"
+  -- cut windows: token storages, every window around the token; exhaustive small storages, every window
+  let mut ci := 0
+  for tok in cutTokens do
+    ci := ci + 1
+    emitCutToken emit full ci (bytesOfString tok)
+  for len in List.range 3 do
+    for s in allStrings len do
+      emitAllWindows emit s parsers (!full)
+  if full then
+    let mut k := 0
+    for s in allStrings 3 do
+      k := k + 1
+      if k % 5 == seed % 5 then emitAllWindows emit s parsers true
+  for len in List.range (if full then 5 else 4) do
+    for s in allStringsOver cmbAlphabet len do
+      emitAllWindows emit s (cmbParsers ++ tagCmbParsers) (!full || len == 4)
   -- number tokens at the overflow exits; `#xx` codes at every distance from the token end
   let mut idx := 0
   for tok in numTokens full do
@@ -490,6 +655,14 @@ def gen (seed n : Nat) (tier : String) (emit : String → IO Unit) : IO Unit := 
     r := r2
     emitAll emit s binParsers
     emitAll emit s (binParsers.map ("@" ++ ·))
+  -- binary parsers on cut windows: the missing bytes of the integer lie behind the view
+  for _ in List.range (if full then 300 else 30) do
+    let (len, r1) := r.nat 10
+    let (s, r2) := (List.range len).foldl (fun (acc : Bytes × Rng) _ =>
+      let (b, r') := acc.2.nat 256; (UInt8.ofNat b :: acc.1, r')) ([], r1)
+    r := r2
+    for c in List.range (s.length + 1) do
+      emitCuts emit s c binParsers false
   let extra := if tier == "thorough" then 60000 else 3000
   for _ in List.range extra do
     let (s, r1) := (List.range (maxLen + 1)).foldl (fun (acc : Bytes × Rng) _ =>
@@ -511,6 +684,13 @@ def gen (seed n : Nat) (tier : String) (emit : String → IO Unit) : IO Unit := 
     r := r5
     emit s!"{p} {hexOfBytes s} {i}"
     emit s!"@{p} {hexOfBytes s} {i}"
+    -- a cut window of the same storage, and the same window inside a wider one
+    let ((a, b), r6) := rndCut p s i r
+    r := r6
+    emit s!"v{a}-{b}@{p} {hexOfBytes s} {i - a}"
+    let a0 := a / 2
+    let b0 := min s.length (b + 2)
+    emit s!"v{a0}-{b0},{a - a0}-{b - a0}@{p} {hexOfBytes s} {i - a}"
 
 /-- non-trivial: buffer of at least two bytes, or a non-zero cursor -/
 def nontrivial (line : String) : Bool :=
